@@ -4,7 +4,7 @@ import json, re
 from pathlib import Path
 ROOT = Path(__file__).resolve().parent.parent / "seeded"
 rows = []
-for d in sorted(ROOT.glob("C??")):
+for d in sorted(list(ROOT.glob("C??")) + list((ROOT / "rejected").glob("C??"))):
     for suf in "GHI":
         m = d / f"meta{suf}.json"
         if not m.exists():
@@ -34,7 +34,7 @@ for d in sorted(ROOT.glob("C??")):
         if c is not None and c.get("learn_reruns"):
             cs += "; reruns: " + c["learn_reruns"]
         summ = " ".join(str(meta.get("summary", "")).split())[:230].replace("|", "/")
-        rows.append(f"| {d.name}/{suf} | {summ} | {res} | {cs} |")
+        rows.append(f"| {d.name}/{suf}{' (REJECTED: fails existing tests)' if d.parent.name == 'rejected' else ''} | {summ} | {res} | {cs} |")
 print("| seed | change (from the author's meta.json) | first quick run of the checks | confirmation (demo rc clean/patched, stable tests passing with the change) |")
 print("|---|---|---|---|")
 print("\n".join(rows))
